@@ -398,6 +398,33 @@ func runBuild(c *Ctx) {
 			}
 		}
 	}
+	// invalid definitions inside mutual recursion, asked for in every order on one instance
+	for _, fam := range badFamilies {
+		for rep := 0; rep < scale(c, 4, 12); rep++ {
+			cfg := randCfg(c)
+			shared := newInstance(cfg)
+			order := append([]reflect.Type{}, fam...)
+			for _, t := range fam {
+				order = append(order, reflect.SliceOf(t), reflect.MapOf(reflect.TypeOf(""), t))
+			}
+			c.rng.Shuffle(len(order), func(i, j int) { order[i], order[j] = order[j], order[i] })
+			if rep < len(fam) { // each member first, at least once
+				for i, t := range order {
+					if t == fam[rep] {
+						order[0], order[i] = order[i], order[0]
+					}
+				}
+			}
+			for k, t := range order {
+				tc := newTypeCase(t, cfg)
+				tc.P = shared
+				c.addBuild(tc, "", fmt.Sprintf("build-bad-family step %d", k), "bad-family")
+				if _, err := shared.CodecForType(t); err == nil {
+					c.addRT(tc, vg.Value(t, 3), "build-bad-family-smoke")
+				}
+			}
+		}
+	}
 	// bare kinds and the catalogue
 	for _, t := range badKindTypes {
 		c.addBuild(newTypeCase(t, Cfg{}), "", "build-bare", "bare-bad")
